@@ -121,6 +121,7 @@ func (x *Exec) callExternal(st *State, call *ast.CallExpr, callee *types.Func, p
 			sorts = append(sorts, t.Sort)
 			name += "_" + sortTag(t.Sort)
 		}
+		_ = name
 		x.eng.declareFun(name, sorts, SStr)
 		return []Value{sc(App(SStr, name, ts...))}
 	case "fmt.Println", "fmt.Printf", "fmt.Print", "fmt.Fprint", "fmt.Fprintf", "fmt.Fprintln",
@@ -206,6 +207,7 @@ func (x *Exec) callExternal(st *State, call *ast.CallExpr, callee *types.Func, p
 		st.assume(Eq(App(SStr, "file-name", fh), asTerm(as[0])), "openfile")
 		x.ghostLog(st, "open", asTerm(as[0]))
 		e := x.fresh("err", SInt)
+		x.noteOSErr(st, e)
 		sig := callee.Type().(*types.Signature)
 		return []Value{PtrV{Ref: fh, Elem: sig.Results().At(0).Type().(*types.Pointer).Elem()}, OpaqueV{T: e, Typ: types.Universe.Lookup("error").Type()}}
 	case "os.*File.Write":
@@ -216,6 +218,7 @@ func (x *Exec) callExternal(st *State, call *ast.CallExpr, callee *types.Func, p
 		x.ghostLogInt(st, "writelen", b.Len)
 		x.lastWrite = &b
 		e := x.fresh("err", SInt)
+		x.noteOSErr(st, e)
 		return []Value{sc(x.fresh("nw", SInt)), OpaqueV{T: e, Typ: types.Universe.Lookup("error").Type()}}
 	case "os.*File.Close":
 		return []Value{OpaqueV{T: x.fresh("err", SInt), Typ: types.Universe.Lookup("error").Type()}}
@@ -275,4 +278,11 @@ func (x *Exec) readModel(st *State, call *ast.CallExpr, src Value, buf SliceV, f
 
 func (x *Exec) streamOf(src Value) Term {
 	return App(ArrSort(SInt), "stream-of", asTerm(src))
+}
+
+// noteOSErr: ghost flag "some operating-system call of this function returned an error"
+func (x *Exec) noteOSErr(st *State, e Term) {
+	none := OpaqueV{T: Int(0)}
+	cur := x.ghostGet(st, "oserr", none, SBool)
+	x.ghostSet(st, "oserr", none, Or(cur, Neq(e, Int(0))))
 }
